@@ -582,8 +582,11 @@ func wireLabels(wn []byte) [][]byte {
 }
 
 // buildQuery assembles a query packet: header, question(s), one root OPT (DO set).
-func buildQuery(wn []byte, qtype, qclass uint16, rd, cd, twoQ bool) []byte {
+func buildQuery(wn []byte, qtype, qclass uint16, rd, cd, twoQ, ad bool) []byte {
 	flags := uint16(0)
+	if ad {
+		flags |= 1 << 5
+	}
 	if rd {
 		flags |= 1 << 8
 	}
@@ -904,7 +907,10 @@ func parseClient(s string) netip.Addr {
 func execServe(f []string) vlib.Res {
 	client := parseClient(f[2])
 	internal, rd, cd, wx := f[3][0] == 't', f[3][1] == 't', f[3][2] == 't', f[3][3] == 't'
-	replay, wireBorn, twoQ := false, false, false
+	replay, wireBorn, twoQ, qad := false, false, false, false
+	if len(f[3]) >= 8 {
+		qad = f[3][7] == 't' // the client set AD in its query (RFC 6840 section 5.7)
+	}
 	if len(f[3]) >= 7 {
 		replay, wireBorn, twoQ = f[3][4] == 't', f[3][5] == 't', f[3][6] == 't'
 	}
@@ -928,7 +934,7 @@ func execServe(f []string) vlib.Res {
 			twoQ = false
 			wx = false // a ledger handed over as a context value does not cross the detach boundary
 		}
-		raw = buildQuery(wn, qtype, qclass, rd, cd, twoQ)
+		raw = buildQuery(wn, qtype, qclass, rd, cd, twoQ, qad)
 		req = new(dns.Msg)
 		if err := req.Unpack(raw); err != nil {
 			return vlib.Res{Impl: "bad-op", Oracle: "-"}
@@ -948,6 +954,7 @@ func execServe(f []string) vlib.Res {
 		}
 		req.RecursionDesired = rd
 		req.CheckingDisabled = cd
+		req.AuthenticatedData = qad
 		req.SetEdns0(4096, true)
 	}
 
@@ -1002,9 +1009,14 @@ func execServe(f []string) vlib.Res {
 			// handler runs on (for a wire-born request: the detached tree)
 			ctx, _ = middleware.EnsureResolutionAttemptGuard(ctx)
 			middleware.MarkRequestLocalFailureResponse(ctx, m, &middleware.ResolutionAttemptLimitError{Question: m.Question[0], Endpoint: "192.0.2.53:53", Transport: "udp"})
-		case 'l':
+		case 'l', 'k', 'p', 's', 'm', 'r':
+			// every other request-local provenance a lower layer may leave on a SERVFAIL
 			ctx, _ = middleware.EnsureResolutionAttemptGuard(ctx)
-			middleware.MarkRequestLocalFailureResponse(ctx, m, context.DeadlineExceeded)
+			middleware.MarkRequestLocalFailureResponse(ctx, m, map[byte]error{
+				'l': context.DeadlineExceeded, 'k': context.Canceled, 'p': middleware.ErrFailureProbeLimit,
+				's': fmt.Errorf("shed: %w", middleware.ErrLocalLoadShed), 'm': middleware.ErrMaxRecursion,
+				'r': &middleware.RecursionWorkLimitError{Kind: middleware.RecursionWorkInternalQuery, Limit: 1},
+			}[down.mark])
 		}
 		_ = ch.Writer.WriteMsg(m)
 	})
@@ -1127,6 +1139,12 @@ func execServe(f []string) vlib.Res {
 	}
 	if wireBorn {
 		tags += ",wire"
+	}
+	if qad {
+		tags += ",qad"
+	}
+	if down != nil && strings.ContainsRune("kpsmr", rune(down.mark)) {
+		tags += ",localmark"
 	}
 	if qlabels != nil {
 		tags += ",wirename"
@@ -1280,7 +1298,7 @@ func judgeServe(client netip.Addr, internal, rd, cd bool, qclass, qtype uint16, 
 	if down.mark == 'c' {
 		return fail("serve/over/cached-failure", "")
 	}
-	if down.mark == 'a' || down.mark == 'l' {
+	if down.mark != 'n' && down.mark != 'c' {
 		return fail("serve/over/request-local-failure", string(down.mark))
 	}
 	if down.rcode == dns.RcodeSuccess {
